@@ -6,7 +6,7 @@
    without upserting its accounts.  What is proved (theorems C18_partial_...): existence, persistence, constant insertion date,
    first usage never increases and is at or below the effective timestamp of every committed CREATE involving it. *)
 From Coq Require Import List ZArith String Bool Lia.
-From LV Require Import Base.Util Ledger.Types Ledger.Core Ledger.Invariants Ledger.AccountProofs.
+From LV Require Import Base.Util Ledger.Types Ledger.Core Ledger.Invariants Ledger.AccountProofs Ledger.FirstUsageProofs.
 Import ListNotations.
 Open Scope Z_scope.
 
@@ -42,7 +42,50 @@ Theorem C18_partial_metadata_lowers : forall hist_on now accs hist a md,
 Proof. intros. apply upsert_account_listed. Qed.
 Print Assumptions C18_partial_metadata_lowers.
 
+(* THE FUNCTIONAL STATEMENT.  After any history, for every address: the account is listed exactly when the log holds an
+   event involving it (a created transaction with it among its postings or account metadata, at the transaction's
+   timestamp; metadata written on it, at the date of the write), and then its first usage IS the earliest of those
+   events.  [log_events] leaves the accounts of revert transactions out: that is what the code does (KF-C18). *)
+Theorem C18_first_usage_is_earliest_event : forall f h a,
+  let s := run f h in
+  match find_account (s_accounts s) a with
+  | None => forall l e, In l (s_logs s) -> ~ In (a, e) (log_events l)
+  | Some x => (exists l, In l (s_logs s) /\ In (a, a_first x) (log_events l)) /\
+              (forall l e, In l (s_logs s) -> In (a, e) (log_events l) -> a_first x <= e)
+  end.
+Proof.
+  intros f h a s. pose proof (run_fu f h a) as E. pose proof (min_events_spec log_events (s_logs s) a) as S.
+  fold s in E. unfold fu in E. destruct (find_account (s_accounts s) a) as [x|]; cbn [option_map] in E; rewrite <- E in S; exact S.
+Qed.
+Print Assumptions C18_first_usage_is_earliest_event.
+
+(* the property as worded (revert transactions count too) holds for every history whose log has no revert *)
+Theorem C18_full_without_reverts : forall f h a,
+  let s := run f h in
+  Forall no_revert_log (s_logs s) ->
+  match find_account (s_accounts s) a with
+  | None => forall l e, In l (s_logs s) -> ~ In (a, e) (log_events_full l)
+  | Some x => (exists l, In l (s_logs s) /\ In (a, a_first x) (log_events_full l)) /\
+              (forall l e, In l (s_logs s) -> In (a, e) (log_events_full l) -> a_first x <= e)
+  end.
+Proof.
+  intros f h a s Hn. pose proof (run_fu f h a) as E. pose proof (min_events_spec log_events_full (s_logs s) a) as S.
+  fold s in E. rewrite (min_events_full _ _ Hn) in S. unfold fu in E.
+  destruct (find_account (s_accounts s) a) as [x|]; cbn [option_map] in E; rewrite <- E in S; exact S.
+Qed.
+Print Assumptions C18_full_without_reverts.
+
 Local Open Scope string_scope.
+(* non-vacuity: a history with a back-dated and a future-dated transaction and a metadata write; bob's first usage is the
+   metadata write at 20 (his only transaction is dated 50), carol's the back-dated 5 *)
+Example C18_example_events :
+  let s := run {| f_moves := true; f_pcev := true; f_acc_hist := true; f_tx_hist := true; f_hash := true |}
+    [(10, {| o_in := ICreate [{| p_src := "world"; p_dst := "bob"; p_asset := "USD"; p_amt := 5 |}] (Some 50) "" [] [] false; o_ik := ""; o_dry := false |});
+     (20, {| o_in := ISetMeta (TAcc "bob") [("k", "v")]; o_ik := ""; o_dry := false |});
+     (30, {| o_in := ICreate [{| p_src := "world"; p_dst := "carol"; p_asset := "USD"; p_amt := 5 |}] (Some 5) "" [] [] false; o_ik := ""; o_dry := false |})] in
+  map (fun x => (a_addr x, a_first x)) (s_accounts s) = [("world", 5); ("bob", 20); ("carol", 5)] /\ Forall no_revert_log (s_logs s).
+Proof. vm_compute. split; [reflexivity | repeat constructor]. Qed.
+
 (* refutation of the full statement: bob is credited by a transaction dated 50 (future-dated), which is reverted at 20
    (not at effective date): the revert transaction involves bob with effective timestamp 20, first usage stays 50 *)
 Theorem C18_refuted_revert :
